@@ -189,6 +189,8 @@ SCHED = None
 class ShimEvent:
     def __init__(self):
         self._f = False
+        self._waiters = 0
+        self.on_gate = None      # harness hook: a waiter is let through (at the moment it is released)
 
     def is_set(self):
         if SCHED:
@@ -198,6 +200,8 @@ class ShimEvent:
     def set(self):
         if SCHED:
             SCHED.yield_point('set:before')
+        if not self._f and self._waiters and self.on_gate:
+            self.on_gate()       # like threading.Event: a waiter released by set() proceeds even if clear() follows
         self._f = True
         if SCHED:
             SCHED.yield_point('set')
@@ -212,8 +216,20 @@ class ShimEvent:
     def wait(self, timeout=None):
         if SCHED:
             SCHED.yield_point('wait')
-            SCHED.block_until(lambda: self._f, 'wait')
-        return self._f
+            if self._f:
+                if self.on_gate:
+                    self.on_gate()
+            else:
+                self._waiters += 1
+                released = [False]
+
+                def pred():
+                    if self._f:
+                        released[0] = True
+                    return released[0]       # once released, stay released (threading.Event semantics)
+                SCHED.block_until(pred, 'wait')
+                self._waiters -= 1
+        return True if SCHED else self._f
 
 
 class ShimThread:
